@@ -307,6 +307,27 @@ CHECKS['C20'] = {
                  'functions; serial-equivalence oracle',
 }
 
+CHECKS['C06'] = {
+    'text': 'Three kinds of obligations. (1) Direct z3 regular-language queries on the token patterns extracted from parser.py '
+            'and from bql.ebnf: equal token languages in both sources, prefix-freeness that makes the ordered choice date | '
+            'decimal | integer safe (with reachability witnesses), keywords are identifier words, string delimiters, comments '
+            'and strings never start alike; unbounded word length. (2) Literal values through the semantic actions (symbolic '
+            'integers; enumerated decimals, dates, strings with the other quote kind, booleans / NULL / keywords / identifiers '
+            'in every letter-case pattern, lists). (3) Print -> parse round trips, enumerated exhaustively inside the bound: '
+            'every parent operator x child kind (33) x operand position, with minimal and redundant parentheses, keyword case, '
+            'separators (space, newline, block comment), trailers, as target and as WHERE; every pair of comparison operators '
+            'rejected unparenthesised; arithmetic associativity and unary-minus precedence for every operator pair; statements '
+            'with every clause subset x 14 FROM forms. Every text is parsed by the shipped parser and by a parser derived at '
+            'run time from bql.ebnf (tatsu.compile) and both must return the printed tree (or both reject).',
+    'design_ref': 'DESIGN.md section 5, C06',
+    'note': _COMMON_NOTE + ' TatSu cannot be executed on symbolic text: the round-trip conditions are exhaustive enumeration '
+            'inside the stated bound (depth 2 quick, depth 3 thorough), the solver reasons about the token languages and the '
+            'integer literal values. "Parser = grammar" is decided differentially on the explored texts only; unbounded nesting '
+            'depth is argued from the stratified grammar, not proved.',
+    'technique': 'z3 regular-expression inclusion on extracted token patterns; symbolic execution of literal actions; '
+                 'solver-enumerated print/parse round trips against two parsers',
+}
+
 NOT_APPLICABLE = {
     pid: 'check under construction in this session; not claimed yet'
     for pid in ['C06', 'C11', 'C12', 'C13', 'C14', 'C16', 'C17', 'C18', 'C19', 'C20']
